@@ -145,6 +145,8 @@ def run(ctx):
         txt = " ".join(T.render(T.root_streams()[-1])) if T.root_streams() else ""
         ok = bool(re.search(r"let __name = :: darling :: util :: path_to_string \( __inner \. path \( \) \) ; match __name \. as_str \( \) \{ .* __other => \{", txt))
         ctx.ob("C01.H.dispatch-on-item-name", f.key, "match path_to_string(__inner.path())", ok, txt[:300])
+    # unknown names reach the flatten field "in order": the buffer is append-only across items and attributes
+    common.buffers_only_pushed(ctx, "C01.H.flatten-buffer-append-only")
     # ------------------------------------------------------------ initialiser / presence-check agreement
     ini = ctx.fn(common.TOK % "field::Initializer<'_>")
     chk = ctx.fn(common.TOK % "field::CheckMissing<'_>")
